@@ -61,7 +61,9 @@ def case_strategy(draw, styles):
     elif pk_kind in ("table", "named"):
         k = draw(st.integers(1, min(3, n)))
         pkc = list(draw(st.permutations(names)))[:k]
-        titems.append({"kind": "pk", "name": cnames[0] if pk_kind == "named" else None, "cols": pkc})
+        # optional sort direction per key column (written in upper case: the lower-case spelling is not recognised by the pinned tree)
+        orders = [draw(st.sampled_from([None, None, "ASC", "DESC"])) for _ in pkc]
+        titems.append({"kind": "pk", "name": cnames[0] if pk_kind == "named" else None, "cols": pkc, "orders": orders})
     for j in range(draw(st.integers(0, 3))):
         k = draw(st.integers(1, min(4, n)))
         uc = list(draw(st.permutations(names)))[:k]
@@ -110,7 +112,8 @@ def titem_tokens(it):
     if it["name"]:
         toks += K("CONSTRAINT") + [I(it["name"])]
     if it["kind"] == "pk":
-        toks += K("PRIMARY", "KEY") + plist([[I(c)] for c in it["cols"]])
+        orders = it.get("orders") or [None] * len(it["cols"])
+        toks += K("PRIMARY", "KEY") + plist([[I(c)] + ([V(o)] if o else []) for c, o in zip(it["cols"], orders)])
     elif it["kind"] == "uq":
         toks += K("UNIQUE") + plist([[I(c)] for c in it["cols"]])
     elif it["kind"] == "check":
